@@ -1,6 +1,7 @@
-(* repr() of str / list of pairs of str is a prefix code, hence the framed cache key is injective. *)
-From Coq Require Import List Ascii String Bool Arith Lia.
-From LV Require Import Cache.Bytes Cache.PyRepr Gen.CacheKey.
+(* repr() of str / list of pairs of str is a prefix code, hence the framed cache key is injective.
+   The str repr covers all of Unicode (Cache/PyRepr.v); nothing here depends on the contents of the printable table. *)
+From Coq Require Import List Ascii String Bool Arith NArith Lia.
+From LV Require Import Cache.Bytes Gen.Printable Cache.PyRepr Gen.CacheKey.
 Import ListNotations.
 
 Lemma beqb_refl a : beqb a a = true.
@@ -51,20 +52,305 @@ Proof.
   unfold esc. repeat match goal with |- context [if ?b then _ else _] => destruct b end; discriminate.
 Qed.
 
+(* ---- code points >= 128 ---------------------------------------------------------------------------- *)
+Local Open Scope N_scope.
+
+Lemma N_of_ascii_inj a b : N_of_ascii a = N_of_ascii b -> a = b.
+Proof. intros H. rewrite <- (ascii_N_embedding a), <- (ascii_N_embedding b). now rewrite H. Qed.
+
+Lemma app_inv_len0 {A} (a a' x x' : list A) :
+  List.length a = List.length a' -> a ++ x = a' ++ x' -> a = a' /\ x = x'.
+Proof.
+  revert a'. induction a as [|h a IH]; intros [|h' a'] L H; cbn in *; try discriminate; auto.
+  inversion H; subst. destruct (IH a') as [-> ->]; auto.
+Qed.
+
+(* continuation byte *)
+Definition cb (c : ascii) : Prop := 128 <= N_of_ascii c < 192.
+
+Lemma cont_inv r x r1 : cont r = Some (x, r1) -> exists c, r = c :: r1 /\ cb c /\ x = N_of_ascii c - 128.
+Proof.
+  unfold cont. destruct r as [|c r']; [discriminate|].
+  destruct (_ && _) eqn:E; [|discriminate]. intros H; inversion H; subst.
+  apply andb_true_iff in E as [E1 E2]. apply N.leb_le in E1. apply N.ltb_lt in E2.
+  exists c. unfold cb. auto.
+Qed.
+
+(* the three shapes of a well-formed sequence *)
+Definition shape2 (c : ascii) (r : bytes) (cp : N) (k : nat) : Prop :=
+  exists c1 r1, r = c1 :: r1 /\ cb c1 /\ k = 1%nat /\ 194 <= N_of_ascii c < 224 /\
+    cp = (N_of_ascii c - 192) * 64 + (N_of_ascii c1 - 128).
+Definition shape3 (c : ascii) (r : bytes) (cp : N) (k : nat) : Prop :=
+  exists c1 c2 r2, r = c1 :: c2 :: r2 /\ cb c1 /\ cb c2 /\ k = 2%nat /\ 224 <= N_of_ascii c < 240 /\
+    cp = (N_of_ascii c - 224) * 4096 + (N_of_ascii c1 - 128) * 64 + (N_of_ascii c2 - 128) /\ 2048 <= cp.
+Definition shape4 (c : ascii) (r : bytes) (cp : N) (k : nat) : Prop :=
+  exists c1 c2 c3 r3, r = c1 :: c2 :: c3 :: r3 /\ cb c1 /\ cb c2 /\ cb c3 /\ k = 3%nat /\ 240 <= N_of_ascii c < 245 /\
+    cp = (N_of_ascii c - 240) * 262144 + (N_of_ascii c1 - 128) * 4096 + (N_of_ascii c2 - 128) * 64 + (N_of_ascii c3 - 128) /\
+    65536 <= cp <= 1114111.
+
+Lemma utf8_lead_inv c r cp k :
+  utf8_lead c r = Some (cp, k) -> shape2 c r cp k \/ shape3 c r cp k \/ shape4 c r cp k.
+Proof.
+  unfold utf8_lead. set (n := N_of_ascii c).
+  destruct ((194 <=? n) && (n <? 224)) eqn:E2.
+  { apply andb_true_iff in E2 as [A B']. apply N.leb_le in A. apply N.ltb_lt in B'.
+    destruct (cont r) as [[x r1]|] eqn:C1; [|discriminate]. intros H; inversion H; subst.
+    apply cont_inv in C1 as (c1 & -> & Hc1 & ->). unfold cb in *. left. exists c1, r1. repeat split; auto; lia. }
+  destruct ((224 <=? n) && (n <? 240)) eqn:E3.
+  { apply andb_true_iff in E3 as [A B']. apply N.leb_le in A. apply N.ltb_lt in B'.
+    destruct (cont r) as [[x r1]|] eqn:C1; [|discriminate].
+    destruct (cont r1) as [[y r2]|] eqn:C2; [|discriminate].
+    destruct (2048 <=? _) eqn:L; [|discriminate]. apply N.leb_le in L. intros H; inversion H; subst.
+    apply cont_inv in C1 as (c1 & -> & Hc1 & ->). apply cont_inv in C2 as (c2 & -> & Hc2 & ->).
+    unfold cb in *. right; left. exists c1, c2, r2. repeat split; auto; lia. }
+  destruct ((240 <=? n) && (n <? 245)) eqn:E4; [|discriminate].
+  apply andb_true_iff in E4 as [A B']. apply N.leb_le in A. apply N.ltb_lt in B'.
+  destruct (cont r) as [[x r1]|] eqn:C1; [|discriminate].
+  destruct (cont r1) as [[y r2]|] eqn:C2; [|discriminate].
+  destruct (cont r2) as [[z r3]|] eqn:C3; [|discriminate].
+  destruct ((65536 <=? _) && _) eqn:L; [|discriminate]. apply andb_true_iff in L as [L1 L2].
+  apply N.leb_le in L1. apply N.leb_le in L2. intros H; inversion H; subst.
+  apply cont_inv in C1 as (c1 & -> & Hc1 & ->). apply cont_inv in C2 as (c2 & -> & Hc2 & ->).
+  apply cont_inv in C3 as (c3 & -> & Hc3 & ->).
+  unfold cb in *. right; right. exists c1, c2, c3, r3. repeat split; auto; lia.
+Qed.
+
+Lemma utf8_lead_range c r cp k : utf8_lead c r = Some (cp, k) -> 128 <= cp <= 1114111 /\ (k <= List.length r)%nat.
+Proof.
+  intros H. apply utf8_lead_inv in H as [H | [H | H]].
+  - destruct H as (c1 & r1 & -> & [? ?] & -> & [? ?] & ->). cbn [List.length]. split; lia.
+  - destruct H as (c1 & c2 & r2 & -> & [? ?] & [? ?] & -> & [? ?] & -> & ?). cbn [List.length]. split; lia.
+  - destruct H as (c1 & c2 & c3 & r3 & -> & [? ?] & [? ?] & [? ?] & -> & [? ?] & -> & ?). cbn [List.length]. split; lia.
+Qed.
+
+(* decoding is injective: a code point has one well-formed encoding *)
+Lemma utf8_lead_inj c r c' r' cp k k' :
+  utf8_lead c r = Some (cp, k) -> utf8_lead c' r' = Some (cp, k') ->
+  c = c' /\ k = k' /\ firstn k r = firstn k' r'.
+Proof.
+  intros H H'. apply utf8_lead_inv in H. apply utf8_lead_inv in H'.
+  unfold shape2, shape3, shape4, cb in *.
+  destruct H as [H | [H | H]], H' as [H' | [H' | H']];
+    repeat match goal with
+           | H : exists _, _ |- _ => destruct H
+           | H : _ /\ _ |- _ => destruct H
+           end; subst; try (exfalso; lia).
+  - assert (N_of_ascii c = N_of_ascii c') by lia. assert (N_of_ascii x = N_of_ascii x1) by lia.
+    repeat match goal with H : N_of_ascii _ = N_of_ascii _ |- _ => apply N_of_ascii_inj in H; subst end. auto.
+  - assert (N_of_ascii c = N_of_ascii c') by lia. assert (N_of_ascii x = N_of_ascii x2) by lia.
+    assert (N_of_ascii x0 = N_of_ascii x3) by lia.
+    repeat match goal with H : N_of_ascii _ = N_of_ascii _ |- _ => apply N_of_ascii_inj in H; subst end. auto.
+  - assert (N_of_ascii c = N_of_ascii c') by lia. assert (N_of_ascii x = N_of_ascii x3) by lia.
+    assert (N_of_ascii x0 = N_of_ascii x4) by lia. assert (N_of_ascii x1 = N_of_ascii x5) by lia.
+    repeat match goal with H : N_of_ascii _ = N_of_ascii _ |- _ => apply N_of_ascii_inj in H; subst end. auto.
+Qed.
+
+(* ---- hex digits ------------------------------------------------------------------------------------- *)
+Lemma hexd_inj a b : (a < 16)%nat -> (b < 16)%nat -> hexd a = hexd b -> a = b.
+Proof.
+  intros Ha Hb.
+  do 16 (destruct a as [|a];
+         [do 16 (destruct b as [|b]; [cbn; intros H; try reflexivity; discriminate H|]); exfalso; lia|]).
+  exfalso; lia.
+Qed.
+
+Fixpoint pow16 (w : nat) : N := match w with O => 1 | S w' => 16 * pow16 w' end.
+
+Lemma hexw_length w : forall n, List.length (hexw w n) = w.
+Proof. induction w; intros n; cbn [hexw]; [reflexivity|]. rewrite app_length, IHw. cbn. lia. Qed.
+
+Lemma hexw_inj w : forall n n', n < pow16 w -> n' < pow16 w -> hexw w n = hexw w n' -> n = n'.
+Proof.
+  induction w as [|w IH]; intros n n' L L' H; cbn [pow16 hexw] in *. { lia. }
+  apply app_inj_tail in H as [H1 H2].
+  assert (D : n / 16 = n' / 16).
+  { apply IH; [apply N.div_lt_upper_bound; lia | apply N.div_lt_upper_bound; lia | exact H1]. }
+  apply hexd_inj in H2.
+  - rewrite (N.div_mod n 16), (N.div_mod n' 16) by lia. lia.
+  - pose proof (N.mod_lt n 16). lia.
+  - pose proof (N.mod_lt n' 16). lia.
+Qed.
+
+Lemma hexw_prefix w n n' r r' :
+  n < pow16 w -> n' < pow16 w -> hexw w n ++ r = hexw w n' ++ r' -> n = n' /\ r = r'.
+Proof.
+  intros L L' H. apply app_inv_len0 in H as [H ->]; [|now rewrite !hexw_length].
+  split; [eapply hexw_inj; eauto | reflexivity].
+Qed.
+
+(* ---- tokens ------------------------------------------------------------------------------------------ *)
+Definition valid (t : tok) : Prop :=
+  match t with
+  | TA c => N_of_ascii c < 128
+  | TR c => 128 <= N_of_ascii c
+  | TN cp raw => exists c r k, raw = c :: firstn k r /\ utf8_lead c r = Some (cp, k)
+  end.
+
+Lemma toks_valid s : forall k, Forall valid (toks k s).
+Proof.
+  induction s as [|c r IH]; intros k; cbn [toks]; [constructor|].
+  destruct k as [|k]; [|apply IH].
+  destruct (N_of_ascii c <? 128) eqn:E.
+  { constructor; [apply N.ltb_lt in E; exact E | apply IH]. }
+  apply N.ltb_ge in E.
+  destruct (utf8_lead c r) as [[cp k]|] eqn:U; [|constructor; [exact E | apply IH]].
+  destruct (printable cp); constructor; try apply IH; [exact E|].
+  exists c, r, k. auto.
+Qed.
+
+Lemma toks_raw s : forall k, (k <= List.length s)%nat -> List.concat (map raw_of (toks k s)) = skipn k s.
+Proof.
+  induction s as [|c r IH]; intros k L; cbn [toks].
+  - destruct k; reflexivity.
+  - destruct k as [|k]; [|cbn [skipn]; apply IH; cbn in L; lia].
+    cbn [skipn]. assert (I0 : List.concat (map raw_of (toks 0 r)) = r) by (apply (IH 0%nat); lia).
+    destruct (N_of_ascii c <? 128); [cbn; now rewrite I0|].
+    destruct (utf8_lead c r) as [[cp k]|] eqn:U; [|cbn; now rewrite I0].
+    destruct (printable cp); [cbn; now rewrite I0|].
+    cbn [map List.concat raw_of]. rewrite IH by (apply utf8_lead_range in U; lia).
+    cbn. now rewrite firstn_skipn.
+Qed.
+
+Lemma esc_head_ascii q c : N_of_ascii c < 128 -> exists h t, esc q c = h :: t /\ N_of_ascii h < 128.
+Proof.
+  intros L. unfold esc.
+  repeat match goal with |- context [if ?b then _ else _] => destruct b end;
+    eexists _, _; (split; [reflexivity|]); try exact L; cbn; lia.
+Qed.
+
+(* above 126 the escape is \xNN *)
+Lemma esc_high q c : is_quote q -> 127 <= N_of_ascii c -> exists t, esc q c = bslash :: t.
+Proof.
+  intros Hq L. unfold esc.
+  destruct (Ascii.eqb c q || Ascii.eqb c bslash); [eauto|].
+  destruct (Ascii.eqb c tab) eqn:E1; [apply Ascii.eqb_eq in E1; subst; cbn in L; lia|].
+  destruct (Ascii.eqb c nl) eqn:E2; [apply Ascii.eqb_eq in E2; subst; cbn in L; lia|].
+  destruct (Ascii.eqb c cr) eqn:E3; [apply Ascii.eqb_eq in E3; subst; cbn in L; lia|].
+  destruct (_ || _) eqn:E4; [eauto|]. exfalso.
+  apply orb_false_iff in E4 as [_ E4]. apply Nat.leb_gt in E4.
+  unfold nat_of_ascii in E4. lia.
+Qed.
+
+Lemma uesc_head q cp : is_quote q -> 128 <= cp -> exists t, uesc q cp = bslash :: t.
+Proof.
+  intros Hq L. unfold uesc. destruct (cp <? 256) eqn:E; [|destruct (cp <? 65536); eauto].
+  apply N.ltb_lt in E. apply esc_high; [assumption|]. rewrite N_ascii_embedding by lia. lia.
+Qed.
+
+Lemma unesc_u X : unesc (bslash :: "u"%char :: X) = Some ("u"%char, X).
+Proof. reflexivity. Qed.
+Lemma unesc_U X : unesc (bslash :: "U"%char :: X) = Some ("U"%char, X).
+Proof. reflexivity. Qed.
+
+Lemma esc_letter q c : is_quote q -> c = "u"%char \/ c = "U"%char -> esc q c = [c].
+Proof. intros [-> | ->] [-> | ->]; reflexivity. Qed.
+
+(* a token's escape followed by anything determines the token (for tokens the tokenizer can produce) *)
+Lemma etok_prefix q t t' r r' :
+  is_quote q -> valid t -> valid t' -> etok q t ++ r = etok q t' ++ r' -> t = t' /\ r = r'.
+Proof.
+  intros Hq V V' H.
+  (* what unesc says about the escape of a non-printable code point *)
+  assert (UN : forall cp X, 128 <= cp ->
+            (cp < 256 /\ unesc (uesc q cp ++ X) = Some (ascii_of_N cp, X)) \/
+            (256 <= cp /\ exists l Y, unesc (uesc q cp ++ X) = Some (l, Y) /\ (l = "u"%char \/ l = "U"%char))).
+  { intros cp X L. unfold uesc. destruct (cp <? 256) eqn:E.
+    - apply N.ltb_lt in E. left. split; [exact E|]. now apply unesc_esc.
+    - apply N.ltb_ge in E. right. split; [exact E|].
+      destruct (cp <? 65536); cbn [app]; [rewrite unesc_u | rewrite unesc_U]; eauto. }
+  destruct t as [c|c|cp raw], t' as [c'|c'|cp' raw']; cbn [etok valid] in *.
+  - (* TA / TA *)
+    pose proof (f_equal unesc H) as U. rewrite !unesc_esc in U by assumption. inversion U; subst. auto.
+  - (* TA / TR *)
+    exfalso. destruct (esc_head_ascii q c V) as (h & t & E & Lh). rewrite E in H. cbn in H. inversion H; subst. lia.
+  - (* TA / TN *)
+    exfalso. destruct V' as (c0 & r0 & k0 & -> & U0). pose proof (proj1 (utf8_lead_range _ _ _ _ U0)) as [L0 _].
+    pose proof (f_equal unesc H) as U. rewrite unesc_esc in U by assumption.
+    destruct (UN cp' r' L0) as [[Lt E] | [Ge (l & Y & E & Hl)]]; rewrite E in U; inversion U; subst.
+    + rewrite N_ascii_embedding in V by lia. lia.
+    + rewrite (esc_letter q l Hq Hl) in H. destruct (uesc_head q cp' Hq L0) as [t Et]. rewrite Et in H.
+      cbn in H. inversion H. destruct Hl; subst; discriminate.
+  - (* TR / TA *)
+    exfalso. destruct (esc_head_ascii q c' V') as (h & t & E & Lh). rewrite E in H. cbn in H. inversion H; subst. lia.
+  - (* TR / TR *)
+    cbn in H. inversion H; subst. auto.
+  - (* TR / TN *)
+    exfalso. destruct V' as (c0 & r0 & k0 & -> & U0). pose proof (proj1 (utf8_lead_range _ _ _ _ U0)) as [L0 _].
+    destruct (uesc_head q cp' Hq L0) as [t Et]. rewrite Et in H. cbn in H. inversion H; subst. cbn in V. lia.
+  - (* TN / TA *)
+    exfalso. destruct V as (c0 & r0 & k0 & -> & U0). pose proof (proj1 (utf8_lead_range _ _ _ _ U0)) as [L0 _].
+    pose proof (f_equal unesc H) as U. rewrite (unesc_esc q c') in U by assumption.
+    destruct (UN cp r L0) as [[Lt E] | [Ge (l & Y & E & Hl)]]; rewrite E in U; inversion U; subst.
+    + rewrite N_ascii_embedding in V' by lia. lia.
+    + rewrite (esc_letter q c' Hq Hl) in H. destruct (uesc_head q cp Hq L0) as [t Et]. rewrite Et in H.
+      cbn in H. inversion H. destruct Hl; subst; discriminate.
+  - (* TN / TR *)
+    exfalso. destruct V as (c0 & r0 & k0 & -> & U0). pose proof (proj1 (utf8_lead_range _ _ _ _ U0)) as [L0 _].
+    destruct (uesc_head q cp Hq L0) as [t Et]. rewrite Et in H. cbn in H. inversion H; subst. cbn in V'. lia.
+  - (* TN / TN *)
+    destruct V as (c0 & r0 & k0 & -> & U0), V' as (c1 & r1 & k1 & -> & U1).
+    pose proof (proj1 (utf8_lead_range _ _ _ _ U0)) as [L0 M0].
+    pose proof (proj1 (utf8_lead_range _ _ _ _ U1)) as [L1 M1].
+    assert (E : cp = cp' /\ r = r').
+    { pose proof (f_equal unesc H) as U.
+      destruct (UN cp r L0) as [[Lt E] | [Ge (l & Y & E & Hl)]],
+               (UN cp' r' L1) as [[Lt' E'] | [Ge' (l' & Y' & E' & Hl')]]; rewrite E, E' in U; inversion U as [[X1 X2]].
+      - split; [|reflexivity].
+        rewrite <- (N_ascii_embedding cp), <- (N_ascii_embedding cp') by lia. congruence.
+      - exfalso. apply (f_equal N_of_ascii) in X1. rewrite N_ascii_embedding in X1 by lia.
+        destruct Hl' as [-> | ->]; cbn in X1; lia.
+      - exfalso. apply (f_equal N_of_ascii) in X1. rewrite N_ascii_embedding in X1 by lia.
+        destruct Hl as [-> | ->]; cbn in X1; lia.
+      - clear E E' U. unfold uesc in H.
+        replace (cp <? 256) with false in H by (symmetry; apply N.ltb_ge; lia).
+        replace (cp' <? 256) with false in H by (symmetry; apply N.ltb_ge; lia).
+        destruct (cp <? 65536) eqn:A, (cp' <? 65536) eqn:A'; cbn [app] in H.
+        + assert (H0 : hexw 4 cp ++ r = hexw 4 cp' ++ r') by congruence.
+          apply N.ltb_lt in A. apply N.ltb_lt in A'. apply (hexw_prefix 4) in H0; [exact H0 | exact A | exact A'].
+        + exfalso. congruence.
+        + exfalso. congruence.
+        + assert (H0 : hexw 8 cp ++ r = hexw 8 cp' ++ r') by congruence.
+          apply (hexw_prefix 8) in H0; [exact H0 | cbn; lia | cbn; lia]. }
+    destruct E as [<- <-]. split; [|reflexivity].
+    destruct (utf8_lead_inj _ _ _ _ _ _ _ U0 U1) as (-> & -> & ->). reflexivity.
+Qed.
+
+Lemma etok_not_quote q t : is_quote q -> valid t -> exists h x, etok q t = h :: x /\ h <> q.
+Proof.
+  intros Hq V. destruct t as [c|c|cp raw]; cbn [etok valid] in *.
+  - pose proof (esc_not_quote q c Hq) as N. destruct (esc q c) as [|h x] eqn:E; [now apply esc_nonempty in E|].
+    exists h, x. split; [reflexivity|]. cbn in N. congruence.
+  - exists c, []. split; [reflexivity|]. intros ->. destruct Hq as [-> | ->]; cbn in V; lia.
+  - destruct V as (c0 & r0 & k0 & -> & U0). pose proof (proj1 (utf8_lead_range _ _ _ _ U0)) as [L0 _].
+    destruct (uesc_head q cp Hq L0) as [t Et]. exists bslash, t. split; [exact Et|].
+    destruct Hq as [-> | ->]; discriminate.
+Qed.
+
+Lemma flat_etok_inj q : is_quote q -> forall l l' r r',
+  Forall valid l -> Forall valid l' ->
+  flat_map (etok q) l ++ q :: r = flat_map (etok q) l' ++ q :: r' -> l = l' /\ r = r'.
+Proof.
+  intros Hq. induction l as [|t l IH]; intros [|t' l'] r r' V V' H; cbn [flat_map] in H.
+  - inversion H; auto.
+  - exfalso. inversion V' as [|? ? Vt _]; subst. destruct (etok_not_quote q t' Hq Vt) as (h & x & E & N).
+    rewrite E in H. cbn in H. inversion H; subst. congruence.
+  - exfalso. inversion V as [|? ? Vt _]; subst. destruct (etok_not_quote q t Hq Vt) as (h & x & E & N).
+    rewrite E in H. cbn in H. inversion H; subst. congruence.
+  - inversion V as [|? ? Vt Vl]; inversion V' as [|? ? Vt' Vl']; subst.
+    rewrite <- !app_assoc in H. apply etok_prefix in H as [-> H]; auto.
+    apply IH in H as [-> ->]; auto.
+Qed.
+
+Local Close Scope N_scope.
+
 Lemma body_inj q s s' r r' :
   is_quote q -> body q s ++ q :: r = body q s' ++ q :: r' -> s = s' /\ r = r'.
 Proof.
-  intros Hq. revert s'. induction s as [|c s IH]; intros [|c' s'] H; cbn in H.
-  - inversion H; auto.
-  - exfalso. pose proof (esc_not_quote q c' Hq) as N. rewrite <- app_assoc in H.
-    destruct (esc q c') as [|x l] eqn:E; [now apply esc_nonempty in E|].
-    cbn in H, N. inversion H; subst. congruence.
-  - exfalso. pose proof (esc_not_quote q c Hq) as N. rewrite <- app_assoc in H.
-    destruct (esc q c) as [|x l] eqn:E; [now apply esc_nonempty in E|].
-    cbn in H, N. inversion H; subst. congruence.
-  - rewrite <- ?app_assoc in H.
-    pose proof (f_equal unesc H) as U. rewrite !unesc_esc in U by assumption.
-    inversion U; subst. apply IH in H2 as [-> ->]. auto.
+  intros Hq H. unfold body in H.
+  apply flat_etok_inj in H as [E ->]; auto using toks_valid.
+  split; [|reflexivity].
+  pose proof (toks_raw s 0 (Nat.le_0_l _)) as A. pose proof (toks_raw s' 0 (Nat.le_0_l _)) as A'.
+  cbn [skipn] in A, A'. rewrite <- A, <- A', E. reflexivity.
 Qed.
 
 Lemma srepr_prefix s s' r r' : srepr s ++ r = srepr s' ++ r' -> s = s' /\ r = r'.
